@@ -77,6 +77,22 @@ ADS['A']['gas_density'] = ADS['A']['gas_molar_density'] * ADS['A']['molar_mass']
 MATS = {'M1': dict(density=2.1, molar_mass=60.08), 'M0': dict()}
 
 
+# shipped adsorbates with a CoolProp backend, used in call SEQUENCES on the shared Adsorbate object (its CoolProp state is
+# mutable: a read must deliver the property at the temperature passed whatever was asked before). The model's oracle record
+# gets the constants from an INDEPENDENT, fresh CoolProp state per phase.
+BACKEND = [('nitrogen', 77.355), ('carbon dioxide', 250.0), ('argon', 87.3), ('methane', 120.0), ('n-butane', 298.15), ('water', 330.0)]
+
+
+def backend_consts(name, T):
+    import pygaps
+    import CoolProp.CoolProp as CP
+    be = pygaps.Adsorbate.find(name).backend_name
+    liq = CP.AbstractState('HEOS', be); liq.update(CP.QT_INPUTS, 0.0, T)
+    gas = CP.AbstractState('HEOS', be); gas.update(CP.QT_INPUTS, 1.0, T)
+    return dict(saturation_pressure=liq.p(), molar_mass=liq.molar_mass() * 1000, liquid_density=liq.rhomass() / 1000,
+                gas_density=gas.rhomass() / 1000, liquid_molar_density=liq.rhomolar() / 1e6, gas_molar_density=gas.rhomolar() / 1e6)
+
+
 def coq_ads(k):
     d = ADS[k]
     f = lambda n: ('(Some %s)' % qlit(d[n])) if n in d else 'None'
@@ -96,7 +112,10 @@ def onum(x):
 
 def impl_objects():
     import pygaps
-    ads = {k: pygaps.Adsorbate('verif_ads_' + k, **v) for k, v in ADS.items()}
+    ads = {k: pygaps.Adsorbate('verif_ads_' + k, **v) for k, v in ADS.items() if not k.startswith('be:')}
+    for k in ADS:
+        if k.startswith('be:'):
+            ads[k] = pygaps.Adsorbate.find(k[3:].split('@')[0])   # the shared registry object, backend state and all
     mats = {k: pygaps.Material('verif_mat_' + k, **v) for k, v in MATS.items()}
     return ads, mats
 
@@ -130,10 +149,10 @@ def gen_cases(tier, seed):
         r1, r2 = parse_p(m1, u1), parse_p(m2, u2)
         spec = None
         expect = None
-        if ak == 'A' and temp and not unitless_with_unit(m1, u1, m2, u2):
+        if ak != 'B' and temp and not unitless_with_unit(m1, u1, m2, u2):
             if r1 and r2:
                 spec = '(spec_convQ (p_canonQ %s %s) (p_canonQ %s %s) %s)' % (
-                    qlit(ADS['A']['saturation_pressure']), coq_prep(r1), qlit(ADS['A']['saturation_pressure']), coq_prep(r2), qlit(v))
+                    qlit(ADS[ak]['saturation_pressure']), coq_prep(r1), qlit(ADS[ak]['saturation_pressure']), coq_prep(r2), qlit(v))
                 expect = 'value'
             else:
                 expect = 'refuse'
@@ -166,14 +185,14 @@ def gen_cases(tier, seed):
         tbl = {'molar': MOLU, 'mass': MASSU, 'volume': VOLU}
         return (b, u) if b in tbl and u in tbl[b] else None
 
-    def add_l(v, b1, b2, u1, u2, ak, bm, um):
+    def add_l(v, b1, b2, u1, u2, ak, bm, um, T=T):
         r1, r2 = parse_l(b1, u1), parse_l(b2, u2)
         mat = parse_m(bm, um)
         spec = expect = None
-        if ak == 'A' and not unitless_with_unit(b1, u1, b2, u2) and bm in ('mass', 'volume', 'molar', None, 'bogus', ''):
+        if ak != 'B' and not unitless_with_unit(b1, u1, b2, u2) and bm in ('mass', 'volume', 'molar', None, 'bogus', ''):
             needs_mat = (r1 and r1[0] in ('fraction', 'percent')) != (r2 and r2[0] in ('fraction', 'percent'))
             if r1 and r2 and (mat or not needs_mat):
-                a = ADS['A']
+                a = ADS[ak]
                 m = mat or ('mass', 'g')
                 cq = 'l_canonQ %s %s %s %s' % (qlit(a['molar_mass']), qlit(a['liquid_molar_density']), qlit(a['gas_molar_density']), coq_mrep(m))
                 spec = '(spec_convQ (%s %s) (%s %s) %s)' % (cq, coq_lrep(r1), cq, coq_lrep(r2), qlit(v))
@@ -203,6 +222,36 @@ def gen_cases(tier, seed):
             u1 = rnd.choice({'mass': MASSU, 'molar': MOLU}.get(b1, VOLU) + [None])
             u2 = rnd.choice({'mass': MASSU, 'molar': MOLU}.get(b2, VOLU) + [None])
         add_l(rnd.choice(VALS), b1, b2, u1, u2, 'A', rnd.choice(mbases), rnd.choice(lunits))
+
+    # ---- call sequences on shipped adsorbates with a thermodynamic backend (one shared, mutable CoolProp state each)
+    phys = [r for r in LREPS if r[0] not in ('fraction', 'percent')]
+    byb = {}
+    for r in phys:
+        byb.setdefault(r[0], []).append(r)
+    n_seq = 40 if tier == 'thorough' else 8
+    for name, Tb in BACKEND:
+        ak = 'be:%s@%s' % (name, Tb)
+        if ak not in ADS:
+            try:
+                ADS[ak] = backend_consts(name, Tb)
+            except Exception:  # noqa  (backend unavailable: nothing to tie)
+                continue
+        for _ in range(n_seq):
+            # short histories in which every ordered pair of bases follows every other one sooner or later
+            for _ in range(rnd.randint(2, 5)):
+                k = rnd.random()
+                if k < 0.15:
+                    r1, r2 = rnd.choice(PREPS), rnd.choice(PREPS)
+                    add_p(rnd.choice(VALS[:3]), r1[0], r2[0], r1[1], r2[1], ak, Tb)
+                else:
+                    b1, b2 = rnd.sample(sorted(byb), 2)
+                    r1, r2 = rnd.choice(byb[b1]), rnd.choice(byb[b2])
+                    if k > 0.85:   # through a fraction of the material
+                        r2 = rnd.choice([('fraction', None), ('percent', None)])
+                        if rnd.random() < 0.5:
+                            r1, r2 = r2, r1
+                    m = rnd.choice(mats)
+                    add_l(rnd.choice(VALS[:3]), r1[0], r2[0], r1[1], r2[1], ak, m[0], m[1], T=Tb)
 
     # ---- material
     def add_m(v, b1, b2, u1, u2, mk):
@@ -287,8 +336,8 @@ def run(rep, tier, seed):
 
 def explore(rep, tier, seed):
     from pygaps.units import converter_mode as cm
-    ads, mats = impl_objects()
     cases = gen_cases(tier, seed)
+    ads, mats = impl_objects()
     fns = {'c_pressure': cm.c_pressure, 'c_loading': cm.c_loading, 'c_material': cm.c_material, 'c_temperature': cm.c_temperature}
 
     def pyargs(c):
@@ -346,8 +395,10 @@ def explore(rep, tier, seed):
             if oc != 'Ok' or not spec_ok[i]:
                 n_rep += 1
                 want = spec_value(i) if n_rep <= 12 else None
-                rep.failure(classify(c, oc), '%s%r returned %s, SI factor gives %r' % (c['fn'], c['args'], (oc, val), want),
-                            {'call': c['fn'], 'args': list(c['args']), 'expected': want, 'observed': [oc, None if val is None else float(val)]})
+                rp = {'call': c['fn'], 'args': list(c['args']), 'expected': want, 'observed': [oc, None if val is None else float(val)]}
+                if str(c['args'][5]).startswith('be:'):   # shared backend state: the earlier calls on this adsorbate are part of the input
+                    rp['history'] = [[cases[j]['fn'], list(cases[j]['args'])] for j in range(i) if cases[j]['args'][5:6] == c['args'][5:6]][-12:]
+                rep.failure(classify(c, oc), '%s%r returned %s, SI factor gives %r' % (c['fn'], c['args'], (oc, val), want), rp)
             elif float(val) != c['args'][0]:
                 nontrivial.add((c['fn'],) + tuple(c['args'][1:]))
         elif c['expect'] == 'refuse':
@@ -392,8 +443,15 @@ def replay(d):
     import logging
     logging.disable(logging.CRITICAL)
     from pygaps.units import converter_mode as cm
-    ads, mats = impl_objects()
     r = d['replay']
+    for h in r.get('history', []) + [[r['call'], r['args']]]:
+        k = h[1][5]
+        if str(k).startswith('be:') and k not in ADS:
+            ADS[k] = backend_consts(k[3:].split('@')[0], float(k.split('@')[1]))
+    ads, mats = impl_objects()
+    for fn, ha in r.get('history', []):
+        ha = list(ha); ha[5] = ads[ha[5]]
+        call(getattr(cm, fn), *ha)
     a = list(r['args'])
     if r['call'] in ('c_pressure', 'c_loading'):
         a[5] = ads[a[5]]
